@@ -142,8 +142,17 @@ def run(tier, seed):
                 continue
             rows = [numrow(x) for x in U.decode(got)]
             rv = [numrow(x) for x in rv]
+            if not qgen.determined(x, meta["db"]):
+                if len(rows) != len(rv):
+                    chk.fail(cid, "rows-differ@" + x["feat"][0], c, {"risinglight": rows, "sqlite": rv})
+                else:
+                    chk.ok(cid, nontrivial=len(rv) > 0, outcome="count-only", sample={"case": c, "rows": rv[:3]})
+                continue
             if U.mset(rows) != U.mset(rv):
                 chk.fail(cid, "rows-differ@" + x["feat"][0], c, {"risinglight": rows, "sqlite": rv})
+                continue
+            if qgen.seq_applies(x, meta["db"]) and rows != rv:
+                chk.fail(cid, "order-differs@" + x["feat"][0], c, {"risinglight": rows, "sqlite": rv})
                 continue
             if x["okeys"]:
                 ka = [tuple(r[i] for i, _ in x["okeys"]) for r in rows]
